@@ -336,6 +336,7 @@ pub fn prop() -> HistProp {
     w.open = 30;
     w.squeeze = 2;
     w.liq_weakest = 4;
+    w.balance = 4;
     let p = CfgProfile::general();
     HistProp {
         id: "C11",
